@@ -104,13 +104,15 @@ def r2(ck, F):
             due = None
             for c in p.conds:
                 t, v = c[0], c[1] != 0
-                if t[0] == "bin" and t[1] == "Eq" and side(t[2]) == "next" and t[3][0] == "const" and t[3][2] == 0:
-                    never = v
+                if t[0] == "bin" and t[1] in ("Eq", "Ne") and ((side(t[2]) == "next" and t[3][0] == "const" and t[3][2] == 0)
+                                                             or (side(t[3]) == "next" and t[2][0] == "const" and t[2][2] == 0)):
+                    never = v if t[1] == "Eq" else not v        # `next_date != 0` is the negation of the never-rotate test
                 elif t[0] == "bin" and t[1] in ("Ge", "Lt", "Le", "Gt") and {side(t[2]), side(t[3])} == {"now", "next"}:
                     a_now = side(t[2]) == "now"
                     op = t[1]
                     # normalise to now >= next
                     truth = {("Ge", True): v, ("Lt", True): not v, ("Le", False): v, ("Gt", False): not v}.get((op, a_now))
+                    # (`next <= now` / `next > now`: the same comparisons with the operands the other way round)
                     if truth is None:
                         ok = False
                     due = truth
